@@ -59,8 +59,63 @@ func gen64History(c *Ctx) *BM64 {
 	return bm
 }
 
+// heapInput returns a private heap copy of data for a zero-copy decoder. In the checkptr build the allocation is
+// 16 bytes longer than the slice handed out (cap == len all the same): checkptr's "converted pointer straddles
+// multiple allocations" judges the extent of the *element type* at the converted address, so the library's
+// zero-length view of a run chunk with 0 runs (corrupt input) that starts 1-3 bytes before the end of the
+// allocation is reported although no byte is ever read through it. That is a policy stricter than the property
+// (a pointer formed inside the caller's bytes and never dereferenced; DESIGN section 9); with the slack, checkptr
+// still reports every view that reaches 16 or more bytes past the input, and byte-exact over-READS are the business
+// of the guard pages (overread64 below, C10's placements).
+func heapInput(data []byte) []byte {
+	if curVariant != "checkptr" {
+		return append([]byte(nil), data...)
+	}
+	b := make([]byte, len(data), len(data)+16)
+	copy(b, data)
+	return b[:len(data):len(data)]
+}
+
+// overread64 hands data to the zero-copy 64-bit decoder in guard memory (last byte right before a PROT_NONE page,
+// first byte right after one for the other placement): any read outside the given bytes faults.
+func overread64(c *Ctx, data []byte, sig string) {
+	if curVariant != "plain" {
+		return
+	}
+	for _, endFlush := range []bool{true, false} {
+		reg, err := NewGuard(data, endFlush)
+		if err != nil {
+			c.Note("mmap failed: " + err.Error())
+			return
+		}
+		dst := roaring64.New()
+		var derr error
+		pv, st := Try(func() { _, derr = dst.FromUnsafeBytes(reg.Payload) })
+		stage := "decoding"
+		if pv == nil && derr == nil {
+			// an accepted bitmap must not refer to memory outside the given bytes either
+			stage = "validating the accepted bitmap"
+			pv, st = Try(func() { _ = dst.Validate() })
+		}
+		c.Eval(1)
+		c.Count("guarded64_FromUnsafeBytes")
+		if pv != nil {
+			// (a Go panic is judged by the entry-point loop below, on a heap copy; only memory faults count here)
+			if d, isFault := classifyFault(pv); isFault {
+				c.Fail(sig+"/FromUnsafeBytes/reads-outside-input", "roaring64 FromUnsafeBytes (end-flush=%v) touched memory outside the given %d bytes while %s: %s\n%v\n%s", endFlush, len(data), stage, d, pv, st)
+			}
+		}
+		dst = nil
+		reg.Free()
+		if c.Failed() {
+			return
+		}
+	}
+}
+
 func feed64(c *Ctx, data []byte, sig string, expectReject bool) []*roaring64.Bitmap {
 	var acc []*roaring64.Bitmap
+	overread64(c, data, sig)
 	type ent struct {
 		name string
 		run  func(dst *roaring64.Bitmap) error
@@ -68,10 +123,10 @@ func feed64(c *Ctx, data []byte, sig string, expectReject bool) []*roaring64.Bit
 	ents := []ent{
 		{"ReadFrom", func(dst *roaring64.Bitmap) error { _, e := dst.ReadFrom(bytes.NewReader(data)); return e }},
 		{"FromUnsafeBytes", func(dst *roaring64.Bitmap) error {
-			_, e := dst.FromUnsafeBytes(append([]byte(nil), data...))
+			_, e := dst.FromUnsafeBytes(heapInput(data))
 			return e
 		}},
-		{"UnmarshalBinary", func(dst *roaring64.Bitmap) error { return dst.UnmarshalBinary(append([]byte(nil), data...)) }},
+		{"UnmarshalBinary", func(dst *roaring64.Bitmap) error { return dst.UnmarshalBinary(heapInput(data)) }},
 		{"FromBase64", func(dst *roaring64.Bitmap) error {
 			_, e := dst.FromBase64(base64.StdEncoding.EncodeToString(data))
 			return e
